@@ -111,6 +111,20 @@ def run_write_config(ctx, v, user, current, set_ok=True, proto_v=None, reject=No
     return f, p, sets
 
 
+def _range_min(validator):
+    """Smallest value a schema validator admits (from its vol.Range), 1 if unbounded."""
+    stack = [validator]
+    while stack:
+        r = stack.pop()
+        if isinstance(r, Record):
+            if r.ctor_name == "Range":
+                lo = r.kwargs.get("min")
+                return lo if isinstance(lo, int) else 1
+            stack.extend(r.args)
+            stack.extend(r.kwargs.values())
+    return 1
+
+
 def cur_factory(mode):
     def current(name, k, px):
         # the value the NCP reports relative to what the host is about to write is decided after the fact
@@ -229,6 +243,23 @@ def r16_2(ctx):
                                           trace=[f"set {n}={val!r} (NCP had {rd!r})" for n, val, rd in sets], construct=key)
                     else:
                         ctx.ok(1, key)
+    if ctx.run.tier == "thorough":
+        # every key of every version's schema, overridden and disabled
+        for v in VERSIONS:
+            raw = ctx.repo.get(f"bellows.ezsp.v{v}.config", "EZSP_SCHEMA")
+            for marker, validator in raw.items():
+                k = marker.args[0]
+                lo = _range_min(validator)
+                for user in ({k: lo}, {k: None}):
+                    for mode in ("below", "above"):
+                        f, p, sets = run_write_config(ctx, v, user, cur_factory(mode), True)
+                        n_runs += 1
+                        names = [n for n, _, _ in sets]
+                        mine = [val for m, val, _ in sets if m == k]
+                        ok = p.terminal == "return" and len(names) == len(set(names)) and (not names or BUFFER not in names or names[-1] == BUFFER) \
+                            and (mine == [] if user[k] is None else mine == [user[k]])
+                        ctx.require(ok, f"every-key:v{v}:{k}:{'disable' if user[k] is None else 'override'}:{mode}",
+                                    f"v{v} {user} ({mode}): {p.terminal} {p.value if p.terminal == 'raise' else ''}; sets {names[-3:]}, own {mine}", func=f)
     # every distinct rejection status (each preimage of the normalisation table, plus unmapped codes) continues the loop
     repo = ctx.repo
     table = repo.get(NAMED, "SL_STATUS_MAP")
